@@ -460,6 +460,30 @@ func (e *Engine) run(s *state) []*state {
 			addr := e.val(s, fr, v.Addr)
 			val := e.val(s, fr, v.Val)
 			s.mem[addr.key] = val
+			// a field assigned in a struct held as a whole value (e.g. a spilled value receiver): keep the whole in step
+			if addr.Kind == "faddr" && len(addr.Args) == 1 {
+				if whole, ok := s.mem[addr.Args[0].key]; ok && whole.Kind == "structval" {
+					var fs []*Term
+					seen := false
+					for _, f := range whole.Args {
+						if f.Name == addr.Name {
+							fs = append(fs, mk("fieldval", addr.Name, 0, nil, val))
+							seen = true
+						} else {
+							fs = append(fs, f)
+						}
+					}
+					if !seen {
+						fs = append(fs, mk("fieldval", addr.Name, 0, nil, val))
+					}
+					s.mem[addr.Args[0].key] = mk("structval", whole.Name, 0, whole.Typ, fs...)
+				}
+			} else if val != nil && val.Kind == "structval" {
+				// a whole value replaces the struct: field cells written before are stale
+				for _, f := range val.Args {
+					delete(s.mem, mk("faddr", f.Name, 0, nil, addr).key)
+				}
+			}
 			if !isLocalAddr(addr) {
 				s.emit(Event{Kind: "store", Recv: addr, Args: []*Term{val}, Pos: v.Pos(), Ctx: fr.ctx, Depth: fr.depth, InFn: fr.fn})
 			}
@@ -521,6 +545,11 @@ func (e *Engine) enter(fr *frame, b *ssa.BasicBlock) bool {
 
 func (e *Engine) newFrame(fn *ssa.Function, caller *frame, d deferred, call ssa.Instruction, pos token.Pos) *frame {
 	ctx := caller.ctx + "/" + fn.Name() + "<" + e.posStr(pos) + ">"
+	if caller.block != nil {
+		if n := caller.visits[caller.block.Index]; n > 1 {
+			ctx += fmt.Sprintf("~%d", n) // a later loop iteration of the caller: its allocations and call results are fresh
+		}
+	}
 	nf := &frame{fn: fn, env: map[ssa.Value]*Term{}, ctx: ctx, depth: caller.depth + 1, block: fn.Blocks[0], visits: map[int]int{}, callInst: call}
 	args := d.args
 	if d.recv != nil && fn.Signature.Recv() != nil {
